@@ -160,6 +160,14 @@ def r1(ctx: Ctx) -> None:
                         if any(isinstance(y, ast.Name) and y.id == nm for y in ast.walk(sib.value)):
                             used.add(nm)
             ok = len(names) == 2 and set(names) <= used
+        # 'for half in cell.rect.split_x(cut): work.append(RectAlloc(half, ...))': every piece the split returns is queued
+        loops_ = [lp for lp in walk_own(fg.node) if isinstance(lp, ast.For) and lp.iter is c_]
+        if loops_ and isinstance(loops_[0].target, ast.Name):
+            lp = loops_[0]
+            apps = [c2 for b in lp.body for c2 in ast.walk(b) if isinstance(c2, ast.Call) and call_name(c2) == "append"
+                    and any(isinstance(y, ast.Name) and y.id == lp.target.id for y in ast.walk(c2))]
+            jumps = [x for b in lp.body for x in ast.walk(b) if isinstance(x, (ast.Break, ast.Continue, ast.Return, ast.If))]
+            ok = bool(apps) and not jumps
         # the split is applied to the popped cell's own rectangle
         recv = s[1][1] if s is not None and s[1][0] == "a" else None
         own = recv is not None and recv[0] == "a" and recv[2] == "rect"
@@ -311,8 +319,11 @@ def griddify_index_check(ctx: Ctx, fg: FuncInfo):
 def r4(ctx: Ctx) -> None:
     fg = ctx.func(ALLOC, "Allocation.griddify")
     ty, xs, ys, c = griddify_index_check(ctx, fg)
-    ctx.site(fg.where, "cut-list index kinds", uses_checked=ty.checked, unresolved=ty.unknown)
-    ctx.require(ty.checked - ty.unknown >= 2, "griddify: cut subscripts not resolved")
+    # a cut loop that reads nothing but cuts[i] is, in the normal form, the loop over the elements of that list (a slice of it):
+    # it cannot run off the list or read the other one
+    elem_loops = [lp for lp in c if lp[0] == "for" and (lp[2] in (xs, ys) or (lp[2][0] == "s" and lp[2][1] in (xs, ys) and lp[2][2][0] == "slice"))]
+    ctx.site(fg.where, "cut-list index kinds", uses_checked=ty.checked, unresolved=ty.unknown, element_loops=len(elem_loops))
+    ctx.require(ty.checked - ty.unknown + len(elem_loops) >= 2, "griddify: cut subscripts not resolved")
     for m in ty.mismatches:
         ctx.report(fg.where, f"cut-index {m.use[-30:]} wants {m.want} got {m.got}",
                    f"griddify subscripts a cut list with an index that ranges over the other list ({m.got} used as {m.want}): "
@@ -371,11 +382,11 @@ def griddify_loops(ctx: Ctx, fg: FuncInfo):
       "of gather_boundaries)", floor=1)
 def r6(ctx: Ctx) -> None:
     fg = ctx.func(ALLOC, "Allocation.griddify")
-    lx, ly = griddify_loops(ctx, fg)
-    pre = [st for st in fg.node.body if st.lineno < lx.lineno and not (isinstance(st, ast.Expr) and isinstance(st.value, ast.Constant))]
-    from .common import region_canon
-    a = region_canon(ctx, fg, [lx], pre)
-    b = region_canon(ctx, fg, [ly], pre)
+    c = canon_function(fg, ctx.model)
+    loops = [st for st in c if st[0] == "for"]
+    if len(loops) != 2:
+        raise AnalysisError("griddify: expected exactly two top-level cut loops")
+    a, b = (loops[0],), (loops[1],)
 
     class ProjSwap(Sigma):
         def _ap(self, s):
@@ -386,11 +397,12 @@ def r6(ctx: Ctx) -> None:
     sg = ProjSwap(attrs={"x_cuttable": "y_cuttable", "y_cuttable": "x_cuttable", "split_horizontal": "split_vertical",
                          "split_vertical": "split_horizontal"})
     ctx.site(fg.where, "x-cut loop and y-cut loop are mirror images", statements=len(a))
+    from framelint.symm import canonical_labelling
     ia = sg.apply(a)
-    if ia != b:
-        d = diff_paths(ia, b)
+    if ia != b and canonical_labelling(ia) != canonical_labelling(b):
+        d = diff_paths(canonical_labelling(ia), canonical_labelling(b))
         ctx.report(fg.where, f"mirror[cut-loops] {d[0][:200] if d else ''}", "the x-cut loop and the y-cut loop of griddify are not mirror images",
-                   lineno=ly.lineno, differences=d)
+                   lineno=fg.node.lineno, differences=d)
 
 
 @rule("C02", "R7.termination", "RANK",
